@@ -92,7 +92,7 @@ theorem alt_two_spec {p : Program} {i : Nat} {f : File} {ce : CEnv} (C : CandCtx
     (∀ {k : Nat} {inc : Include} {g : File}, f.includes[k]? = some inc → idlPrefix inc.path = a →
       p[inc.target]? = some g → Declares g v .constant → ∃ c, c ∈ cs ∧ c.1 = ⟨false, (k : Int), v, a⟩) := by
   simp only [altCands] at h
-  cases hg : getEnum ce.views ce.fuel ce.self a with
+  cases hg : getEnum ce.views ce.fuel [] ce.self a with
   | error err => rw [hg] at h; simp at h
   | ok res =>
     obtain ⟨en, idx0⟩ := res
@@ -108,7 +108,7 @@ theorem alt_two_spec {p : Program} {i : Nat} {f : File} {ce : CEnv} (C : CandCtx
         | some vals =>
           simp only at hc
           obtain ⟨e1, e2⟩ := mem_enumCands.mp hc
-          obtain ⟨e, hed, hev⟩ := getEnum_sound C.sane C.views _ _ _ _ _ hg
+          obtain ⟨e, hed, hev⟩ := getEnum_sound C.sane C.views _ _ _ _ _ _ hg
           rw [e1]
           exact ConstCand.enumValue hsp hed (enumVals_has hev e2)
       · obtain ⟨j, ii, h1, h2, h3, h4⟩ := (mem_incConstCands a v _ 0 c).mp hc
@@ -117,7 +117,7 @@ theorem alt_two_spec {p : Program} {i : Nat} {f : File} {ce : CEnv} (C : CandCtx
         simp only [Nat.zero_add]
         exact ConstCand.incConst C.env.file hsp q1 (by rw [← q2]; exact h2) q4 ((q5 v .constant).mp h3)
     · intro e idx hed hval
-      obtain ⟨vals, e1, e2⟩ := getEnum_complete C.views hed _ _ hg
+      obtain ⟨vals, e1, e2⟩ := getEnum_complete C.views hed C.cur _ _ hg
       simp only [Prod.mk.injEq] at e1
       obtain ⟨rfl, rfl⟩ := e1
       have hx := enumVals_unique C.views (enumDen_viewed C.views hed C.cur) e2 hval
@@ -141,7 +141,7 @@ theorem alt_three_spec {p : Program} {i : Nat} {f : File} {ce : CEnv} (C : CandC
     obtain ⟨j, ii, vals, idx, h1, h2, h3, h4, h5⟩ := (m2 c).mp hc
     obtain ⟨inc, g, q1, q2, q3, q4, _⟩ := incs_at C.env.incs h1
     rw [q3] at h3
-    obtain ⟨e, hed, hev⟩ := getEnum_sound C.sane C.views _ _ _ _ _ h3
+    obtain ⟨e, hed, hev⟩ := getEnum_sound C.sane C.views _ _ _ _ _ _ h3
     rw [h5]
     simp only [Nat.zero_add]
     exact ConstCand.incEnumValue C.env.file hsp hsp2 q1 (by rw [← q2]; exact h2) hed (enumVals_has hev h4)
@@ -149,13 +149,13 @@ theorem alt_three_spec {p : Program} {i : Nat} {f : File} {ce : CEnv} (C : CandC
     obtain ⟨ii, g', q1, q2, q3, q4, _, _⟩ := C.env.incs.2 k inc hk
     obtain ⟨r, hr⟩ := m1 k ii q1 (by rw [q2]; exact hp)
     rw [q3] at hr
-    obtain ⟨vals, e1, e2⟩ := getEnum_complete C.views hed _ _ hr
-    subst e1
     -- the included file is viewed (closure of the file's own view)
     obtain ⟨vi, hvi⟩ := C.cur
     obtain ⟨g0, hg0, _, _, _, _, _, _, hcl⟩ := (C.views i vi hvi).ex
     rw [C.env.file] at hg0; simp only [Option.some.injEq] at hg0; subst hg0
     have hviewed := hcl inc (List.mem_of_getElem? hk)
+    obtain ⟨vals, e1, e2⟩ := getEnum_complete C.views hed hviewed _ _ hr
+    subst e1
     have hx := enumVals_unique C.views (enumDen_viewed C.views hed hviewed) e2 hval
     refine ⟨(⟨true, ((0 + k : Nat) : Int), v, en⟩, some (0 + k)), ?_, by simp⟩
     exact (m2 _).mpr ⟨k, ii, vals, idx, q1, by rw [q2]; exact hp, by rw [q3]; exact hr, hx, rfl⟩
@@ -175,7 +175,7 @@ theorem cands_spec {p : Program} {i : Nat} {f : File} {ce : CEnv} (C : CandCtx p
     cases hy with
     | localConst h1 _ h3 =>
       rw [C.env.file] at h1; simp only [Option.some.injEq] at h1; subst h1
-      exact absurd rfl (sane_of C.sane C.env.file h3).2.2.2
+      exact absurd rfl (sane_of C.sane C.env.file h3).2.2
     | enumValue h1 _ _ => simp [splitLastDot] at h1
     | incConst _ h1 _ _ _ _ => simp [splitLastDot] at h1
     | incEnumValue _ h1 _ _ _ _ _ => simp [splitLastDot] at h1
